@@ -208,6 +208,27 @@ def r4_stream_read(cx):
     cx.ob("R4", "R4/size", len(sz) == 1 and ("field", "region") in gb.origins(sz[0][1]["args"][0], through_calls=False), g, "ByteStream::size = region.size()")
 
 
+def r4b_every_read_method_is_capped(cx):
+    """every method of `impl Read for ByteStream` that touches the source transfers at most what is LEFT
+    (region.end() - cursor), never the whole size of the region"""
+    F = cx.F
+    ms = F.find(impl_self="reader::byte_stream::ByteStream", trait="Read", closure=False)
+    for f in ms:
+        b = F.body(f)
+        src = b.calls(r"Source>::read$", r"Source>::read_exact$", r"Source>::get_slice$")
+        if not src:
+            cx.ob("R4", "R4/Read::%s/no-source-access" % f["item_name"], True, f, "does not touch the source", trivial=True)
+            continue
+        for i, t in src:
+            o = b.origins(t["args"][2])
+            calls = [callee_str(b.term(x[1])) for x in o if x[0] == "call"]
+            left = any(re.search(r"ByteStream::size_left$", c) for c in calls) or (any(re.search(r"Range::<.*Offset>::end$", c) for c in calls) and ("field", "offset") in o)
+            whole = any(re.search(r"ByteStream::size$|Range::<.*Offset>::size$", c) for c in calls)
+            cx.ob("R4", "R4/Read::%s/capped-by-what-is-left" % f["item_name"], left and not whole, f,
+                  "the buffer handed to %s is bounded by region.end() - cursor (size_left), not by the size of the whole region: bounded-by-left=%s uses-whole-size=%s" % (callee_str(t).split("::")[-1], left, whole), ln=t.get("ln"))
+            cx.ob("R4", "R4/Read::%s/from-cursor" % f["item_name"], ("field", "offset") in b.origins(t["args"][1], through_calls=False), f, "the source is read at the cursor", ln=t.get("ln"))
+
+
 def r5_file_reads_are_positioned(cx):
     """the file cursor behind FileSource is shared mutable state: every read of the file must first seek to
     the absolute offset it was asked for, on every path (no remembered position)"""
@@ -255,5 +276,6 @@ RULES = [
     ("R2", r2_rebase, 20),
     ("R3", r3_siblings, 8),
     ("R4", r4_stream_read, 7),
+    ("R4", r4b_every_read_method_is_capped, 2),
     ("R5", r5_file_reads_are_positioned, 5),
 ]
